@@ -1,7 +1,8 @@
 /-
   C19 — termination of the extends / fallback resolution: the fuel of `resolveLoop`, `rvLoop` and
-  `renderValue` is never exhausted (for values a 32-bit range admits, and when "decimal" is the plain
-  numeric style — author rules cannot redefine it, css/validation ParseCounterStyleName).
+  `renderValue` is never exhausted (for every value a Go int can hold whose negation it can hold too,
+  and when "decimal" is the plain numeric style — author rules cannot redefine it, css/validation
+  ParseCounterStyleName).
 -/
 import WR.C19.Model
 namespace WR.C19
@@ -250,11 +251,11 @@ theorem rvLoop_unvisited (c : Table) : ∀ (fuel : Nat) (d : Desc) (prev : List 
 
 /-! ### renderValue -/
 
-/-- values whose absolute value fits the 32-bit auto range -/
-def Bd (v : Int) : Prop := -maxInt32 ≤ v ∧ v ≤ maxInt32
+/-- the values of a Go int (64-bit) other than math.MinInt (whose absolute value overflows) -/
+def Bd (v : Int) : Prop := -maxInt ≤ v ∧ v ≤ maxInt
 
 theorem Bd_natAbs (v : Int) (h : Bd v) : Bd (v.natAbs : Int) := by
-  unfold Bd maxInt32 at *; omega
+  unfold Bd maxInt at *; omega
 
 /-- the resolved "decimal" -/
 def IsDec (d : Desc) : Prop :=
@@ -313,10 +314,10 @@ theorem resolve_decimal_nil (c : Table) (hr : resolveCounter c "decimal" none = 
 
 theorem numeric_ne_no (symbols : List NS) (v : Int) (h : 2 ≤ symbols.length) : numeric symbols v ≠ .no := by
   unfold numeric
+  rw [if_neg (by omega)]
   split
   · split <;> simp
-  · rw [if_neg (by omega)]
-    split <;> simp
+  · split <;> simp
 
 /-- one activation on the resolved decimal style returns -/
 theorem stepValue_decimal (c : Table) (d : Desc) (hd : IsDec d) (v : Int) (hv : Bd v) :
@@ -324,7 +325,7 @@ theorem stepValue_decimal (c : Table) (d : Desc) (hd : IsDec d) (v : Int) (hv : 
   have hr : inRanges (effRanges d "numeric") v = true := by
     simp only [effRanges, hd.2.2.2, if_true]
     unfold Bd at hv
-    simp [inRanges, minInt32, maxInt32] at hv ⊢
+    simp [inRanges, minInt, maxInt] at hv ⊢
     omega
   simp only [stepValue, stepResolved, isDec_sys3 d hd, loopFuel, rvLoop, if_true, hr, Bool.not_true, Bool.false_eq_true,
     if_false]
@@ -355,15 +356,11 @@ theorem stepResolved_cases (c : Table) (v : Int) (hv : Bd v) (d : Desc) (p0 : Li
     simp only
     split
     · exact .inr (.inr ⟨_, _, _, rfl, hv, hp⟩)
-    · have hv2 : Bd (if (decide (v < 0) && usesNegative s') = true then (v.natAbs : Int) else v) := by
-        split
-        · exact Bd_natAbs v hv
-        · exact hv
-      generalize (if (decide (v < 0) && usesNegative s') = true then (v.natAbs : Int) else v) = w at hv2
+    · generalize (if (decide (v < 0) && usesNegative s') = true then (v.natAbs : Int) else v) = w
       cases systemStep d' s' n' w with
       | initial s => exact .inl ⟨_, rfl, by simp⟩
-      | decimal => exact .inr (.inl ⟨w, rfl, hv2⟩)
-      | fallback => exact .inr (.inr ⟨_, _, _, rfl, hv2, hp⟩)
+      | decimal => exact .inr (.inl ⟨v, rfl, hv⟩)
+      | fallback => exact .inr (.inr ⟨_, _, _, rfl, hv, hp⟩)
       | panic m => exact .inl ⟨_, rfl, by simp⟩
 
 /-- what one activation can do next, in general -/
@@ -460,11 +457,5 @@ theorem renderValue_ne_diverge (c : Table) (h : DecOK c) : ∀ (fuel : Nat) (v :
             have h2 := unvisited_cons_lt c name p e hd (by simpa using hc)
             simp only [Option.getD_some]
             omega
-
-/-- a table with the plain decimal style only (witness for the 32-bit overflow) -/
-def decimalOnly : Table :=
-  [("decimal", { Desc.zero with
-      sys := ⟨"", "numeric", 0⟩
-      symbols := [NS.s "0", NS.s "1", NS.s "2", NS.s "3", NS.s "4", NS.s "5", NS.s "6", NS.s "7", NS.s "8", NS.s "9"] })]
 
 end WR.C19
